@@ -1,5 +1,6 @@
 import Zc.Model.Register
-/-! Withdrawal of services (`_core.py:459-498`, `multicast_outgoing_queue.py`, `registry.py`): the host as a
+/-! Withdrawal of services (`Zeroconf.async_unregister_service`, `_async_send_repeatedly`, `generate_unregister_all_services`,
+`async_unregister_all_services`, `async_send`, `_close` in `_core.py`; `multicast_outgoing_queue.py`; `registry.py`): the host as a
 machine of atomic blocks over
 
 * the registry (`_services`: lower-cased name ↦ info object),
